@@ -1,0 +1,63 @@
+//! Verification hooks (only compiled with `--cfg jubako_verif`; never part of a normal build).
+//!
+//! Everything the call sites in this crate need is re-exported from the external `verif_rt`
+//! crate, which only the verification build provides. The only code that has to live here is
+//! what needs crate-private types.
+
+pub use ::verif_rt::*;
+
+use crate::bases::Size;
+use crate::creator::{InputReader, MaybeFileReader};
+use std::io::{Read, Seek, SeekFrom};
+
+/// An `InputReader` over any caller-supplied `Read + Seek` object, so that a simulator can hand
+/// the creator a stream that returns short reads, `Interrupted` or errors.
+/// (`InputReader` cannot be implemented outside the crate: `MaybeFileReader` is private.)
+pub struct HookedInput {
+    inner: Box<dyn ReadSeekSend>,
+    size: u64,
+}
+
+pub trait ReadSeekSend: Read + Seek + Send + 'static {}
+impl<T: Read + Seek + Send + 'static> ReadSeekSend for T {}
+
+impl HookedInput {
+    pub fn new(inner: Box<dyn ReadSeekSend>, size: u64) -> Self {
+        Self { inner, size }
+    }
+}
+
+impl Read for HookedInput {
+    fn read(&mut self, buf: &mut [u8]) -> std::io::Result<usize> {
+        self.inner.read(buf)
+    }
+}
+
+impl Seek for HookedInput {
+    fn seek(&mut self, pos: SeekFrom) -> std::io::Result<u64> {
+        self.inner.seek(pos)
+    }
+}
+
+impl InputReader for HookedInput {
+    fn size(&self) -> Size {
+        self.size.into()
+    }
+    fn get_file_source(self: Box<Self>) -> MaybeFileReader {
+        MaybeFileReader::No(self)
+    }
+}
+
+/// `OutStream::copy` routed through the writer's own `Write` impl (and therefore through its
+/// I/O fault points) instead of straight to the underlying `File`.
+pub(crate) fn copy_through<W: std::io::Write>(
+    writer: &mut W,
+    reader: Box<dyn InputReader>,
+) -> std::io::Result<(u64, MaybeFileReader)> {
+    let mut maybe_file_reader = reader.get_file_source();
+    let read = match maybe_file_reader {
+        MaybeFileReader::Yes(ref mut input_file) => std::io::copy(input_file, writer)?,
+        MaybeFileReader::No(ref mut reader) => std::io::copy(reader.as_mut(), writer)?,
+    };
+    Ok((read, maybe_file_reader))
+}
